@@ -336,9 +336,9 @@ type backend struct {
 	reject  func() error
 	seenKey map[string]int
 	byGate  map[string]*backendCall
-	// deaf, when set, says whether call number n ignores its context while parked: a backend client that notices a
+	// deaf, when set, says whether this call ignores its context while parked: a backend client that notices a
 	// cancelled attempt only when it has its own answer ready (and then reports that answer, not the context's error)
-	deaf func(n int) bool
+	deaf func(c *backendCall) bool
 }
 
 func (b *backend) byGateID(id string) *backendCall {
@@ -375,7 +375,7 @@ func (b *backend) push(ctx context.Context, p any) error {
 	b.byGate[c.Gate] = c
 	rej := b.reject
 	done := ctx.Done()
-	if b.deaf != nil && b.deaf(c.N) {
+	if b.deaf != nil && b.deaf(c) {
 		done = nil
 	}
 	b.mu.Unlock()
